@@ -203,7 +203,8 @@ def gen_col(rng, kind, nrows, sep, first_col=False, name=None, odd=True, excel=F
     elif kind == "datetime":
         vals = [gen_ts(rng, allow_nat=not first_col, whole_seconds=excel) for _ in range(nrows)]
     elif kind == "int":
-        vals = [{"i": rng.choice([0, 1, -1, rng.randint(-10**6, 10**6), 2**53, -(2**53)])} for _ in range(nrows)]
+        vals = [{"i": rng.choice([0, 1, -1, rng.randint(-10**6, 10**6), 2**53, -(2**53), 2**53 + 1, 2**60 + 1,
+                                  -(2**53) - 1, 2**62])} for _ in range(nrows)]
     else:
         vals = [gen_float(rng) for _ in range(nrows)]
         if first_col:
